@@ -119,10 +119,7 @@ pub fn unsigned_fixed_to_decimal(num: u128, decimals: u8) -> Option<Decimal> {
             return None;
         }
         num /= 10u128.pow(scale_diff);
-        Some(Decimal::from_i128_with_scale(
-            num as i128,
-            scale - scale_diff,
-        ))
+        Decimal::try_from_i128_with_scale(num as i128, scale - scale_diff).ok()
     }
 
     let scale = decimals as u32;
